@@ -147,9 +147,10 @@ are scalars, empty containers `{}`, objects, and arrays of scalars / objects / a
 containers, nested to any depth (the structure of save files), fields written with or without
 the optional `=` before `{` (`a={..}` and `a{..}` have the same content), ghost `{}` in key
 position and at the start of a container, headers (`rgb {..}`) in field-value position, a BOM in
-front, `@variables` and `@[..]` as keys, values and array elements.  Missing fragments: parameter
-blocks, object→array mixed containers.  These are decided by the correspondence run and the
-layout/faithfulness oracles.
+front, `@variables` and `@[..]` as keys, values and array elements, object→array mixed
+containers (fields followed by bare scalars).  Missing fragments: parameter blocks; a header or
+a ghost on the FIRST field of a nested container; containers inside the array part of a mixed
+container.  These are decided by the correspondence run and the layout/faithfulness oracles.
 -/
 /-- fragment 1 of C01_faithful: a flat document under ANY valid layout parses to a tape that is,
 up to the scalar positions, exactly the document's keys, operators and scalar bytes (quoted vs
@@ -259,6 +260,32 @@ theorem C01_faithful_variables_partial (g0 : Bytes) (k : Scal) (g1 : Bytes) (o :
 /-- the hypotheses are satisfiable: `@x = @[1 + x] y=@x⏎`. -/
 example : JValidF exampleVar [10] ∧ Blank [10] ∧ hasBom (jrenderF exampleVar ++ [10]) = false :=
   exampleVar_valid
+
+/-- C01_faithful, object→array mixed containers `{ key op value … m0 e1 e2 … }`: the container is
+an `Object` flagged mixed; a `MixedContainer` token stands where the bare list begins (in front of
+`m0`, which the parser first takes for a key); the list elements follow as scalars. -/
+theorem C01_faithful_mixed_partial (g0 : Bytes) (k : Scal) (g1 : Bytes) (o : Op)
+    (g g0' : Bytes) (k' : Scal) (g1' : Bytes) (o' : Op) (v : JVal) (fields : JFields) (gm : Bytes) (m0 : Scal)
+    (elems : List (Bytes × Scal)) (gc : Bytes) (rest : JFields) (gt : Bytes) (hgt : Blank gt)
+    (hv : JValidF (.cons g0 k g1 o (.mixed g g0' k' g1' o' v fields gm m0 elems gc) rest) gt)
+    (hb : hasBom (jrenderF (.cons g0 k g1 o (.mixed g g0' k' g1' o' v fields gm m0 elems gc) rest) ++ gt) = false) :
+    ∃ T, parse (jrenderF (.cons g0 k g1 o (.mixed g g0' k' g1' o' v fields gm m0 elems gc) rest) ++ gt) = .ok T false ∧
+      T.map Tok.erase =
+        ktapeF (.cons k o (.mixed (.cons k' o' (kcontentV v) (kcontentF fields)) (m0 :: elems.map (·.2)))
+          (kcontentF rest)) 0 :=
+  faithful_tree _ gt hgt hv hb
+
+/-- …where the tape of a mixed container is: `Object(end, mixed)`, its fields, `MixedContainer`,
+the bare scalars, `End`. -/
+example (fs : KFields) (vs : List Scal) (b : Nat) :
+    ktapeV (.mixed fs vs) b =
+      [.object (b + 1 + kcntF fs + 1 + vs.length) true] ++ ktapeF fs (b + 1) ++
+        [.mixedContainer] ++ vs.map (fun s => (s.tok []).erase) ++ [.endTok b] := by
+  simp only [ktapeV]
+
+/-- the hypotheses are satisfiable: `a={b=c d e}⏎`. -/
+example : JValidF exampleMixed [10] ∧ Blank [10] ∧ hasBom (jrenderF exampleMixed ++ [10]) = false :=
+  exampleMixed_valid
 
 /-- C01_faithful, BOM in front of a structured document: same tape (positions included, since the
 model records them relative to the end of the input), BOM flag set. -/
